@@ -182,3 +182,84 @@ func VH_C08_SendTo() {
 	}
 	vReach("C08.sendto.end")
 }
+
+// Two datagrams in a row from IPv6 senders (the dual-stack default listener reports every peer as an AF_INET6
+// address): each event's RemoteAddr is that datagram's own source - all 16 address bytes and the port -, also when
+// the two senders differ only in the address or only in the port, and each Write goes back to its own sender.
+//
+//verif: mode=int
+func VH_C08_TwoPeersIPv6() {
+	w := vNewWorld(vNondetBool("et"), 0)
+	w.el.listeners[vListenFD] = &listener{fd: vListenFD, network: "udp", addr: vLocalUDP}
+	vk.S[vListenFD] = vk.Sock{Owner: vk.Framework, Registered: true}
+	i := vNondetInt("i")
+	vAssume(0 <= i && i < 16)
+	vAssume(len(w.el.buffer) >= 2) // (truncation of datagrams longer than the read buffer: VH_C08_ReadUDP)
+	s := &vk.S[vListenFD]
+	for round := 0; round < 2; round++ {
+		tag := "d1"
+		if round == 1 {
+			tag = "d2"
+		}
+		sa := &unix.SockaddrInet6{Port: vNondetInt(tag + ".port")}
+		vAssume(0 <= sa.Port && sa.Port <= 65535)
+		copy(sa.Addr[:], vNondetBytes(tag+".ip6", 16))
+		payload := vNondetBytes(tag+".payload", 2)
+		s.DgramReady, s.Dgram, s.DgramFrom = true, payload, sa
+		seenOK, traffics := false, 0
+		before := s.SentCount
+		w.h.onTraffic = func(c *conn) Action {
+			traffics++
+			ua, ok := c.RemoteAddr().(*net.UDPAddr)
+			seenOK = ok && ua.Port == sa.Port && len(ua.IP) == 16 && ua.IP[i] == sa.Addr[i] && ua.Zone == ""
+			b, _ := c.Next(-1)
+			_, _ = c.Write(b)
+			return None
+		}
+		err := w.el.readUDP(vListenFD, 0, 0)
+		vAssert("C08.v6.one_event_per_datagram", err == nil && traffics == 1)
+		vAssert("C08.v6.remote_addr_is_this_datagrams_sender", seenOK)
+		to, ok := s.SentTo.(*unix.SockaddrInet6)
+		vAssert("C08.v6.write_goes_back_to_this_sender", s.SentCount == before+1 && s.SentLen == 2 && ok && to.Port == sa.Port && to.Addr[i] == sa.Addr[i])
+	}
+	vReach("C08.v6.end")
+}
+
+// A zero-copy echo through AsyncWrite (documented as synchronous for UDP): the reply carries the bytes of the datagram
+// it answers even when the next datagram is read into the loop buffer right afterwards, and has left before any
+// queued task runs.
+//
+//verif: mode=int
+func VH_C08_AsyncWriteEcho() {
+	w := vNewWorld(vNondetBool("et"), 0)
+	w.el.listeners[vListenFD] = &listener{fd: vListenFD, network: "udp", addr: vLocalUDP}
+	vk.S[vListenFD] = vk.Sock{Owner: vk.Framework, Registered: true}
+	s := &vk.S[vListenFD]
+	k := vPick("k", 2)
+	s.WatchK = k
+	_, sa := vSetDatagram("d1", 0)
+	vAssume(len(s.Dgram) == 2 && len(w.el.buffer) >= 2)
+	first := s.Dgram[k]
+	cb := 0
+	w.h.onTraffic = func(c *conn) Action {
+		b, _ := c.Next(-1)
+		_ = c.AsyncWrite(b, func(Conn, error) error { cb++; return nil })
+		return None
+	}
+	err := w.el.readUDP(vListenFD, 0, 0)
+	vAssert("C08.async.sent_before_the_callback_returns", err == nil && s.SentCount == 1 && s.SentLen == 2 && s.SentWatchB == first && cb == 1)
+	to, ok := s.SentTo.(*unix.SockaddrInet4)
+	vAssert("C08.async.to_the_sender", ok && to.Port == sa.Port)
+	// the next datagram re-uses the loop buffer; then whatever the loop has queued runs
+	w.h.onTraffic = func(c *conn) Action { return None }
+	_, _ = vSetDatagram("d2", 1)
+	_ = w.el.readUDP(vListenFD, 0, 0)
+	for {
+		ran, _ := w.el.poller.VRunOne()
+		if !ran {
+			break
+		}
+	}
+	vAssert("C08.async.nothing_else_sent_later", s.SentCount == 1 && s.SentWatchB == first)
+	vReach("C08.async.end")
+}
